@@ -1,4 +1,11 @@
 // C09 — every DNS client gets an answer to its own question under its own ID (engine S).
+//
+// Closed 2–3 client systems around the REAL DnsController; three harness layers (scripted forwarder / real DoUDP
+// over simulated datagram sockets with TCP fallback / real DoTCP pipelining over a simulated stream). Every
+// execution is checked against the statement: own transaction ID and question on every reply, only answers
+// generated for that question in replies and cache entries, one upstream resolution at a time per identical
+// question whose result reaches every waiter, every forwarder / socket closed exactly once and never under a
+// query in flight, nothing left blocked.
 package main
 
 import (
@@ -23,31 +30,102 @@ func q(name string, qtype uint16, id uint16) control.C09Query {
 
 func cl(qs ...control.C09Query) control.C09Client { return control.C09Client{Queries: qs} }
 
+type B = vsched.Bound
+
 func main() {
 	if err := control.VerifC09Prepare(); err != nil {
 		fmt.Fprintln(os.Stderr, "C09: prepare:", err)
 		os.Exit(2)
 	}
+	thorough, worker := false, false
+	for i, a := range os.Args {
+		if (a == "-tier" || a == "--tier") && i+1 < len(os.Args) && os.Args[i+1] == "thorough" {
+			thorough = true
+		}
+		if a == "-vsworker" || a == "--vsworker" {
+			worker = true
+		}
+	}
 	a, b, c := "a.c9.test.", "b.c9.test.", "c.c9.test."
-	_ = c
 	var scs []*vsched.Scenario
-	add := func(p *control.C09Params) {
+	per := map[string]map[string][]B{}
+	// add registers a scenario; quick == nil means thorough tier only
+	add := func(p *control.C09Params, quick, deep []B) {
 		if p.MaxSteps == 0 {
-			p.MaxSteps = 6000
+			p.MaxSteps = 4000
+		}
+		if quick == nil && !thorough && !worker {
+			return
 		}
 		scs = append(scs, control.C09Scenario(p))
+		per[p.Name] = map[string][]B{"quick": quick, "thorough": deep}
 	}
-	add(&control.C09Params{Name: "L1/same-name", Layer: 1, Clients: []control.C09Client{cl(q(a, tA, 0x1001)), cl(q(a, tA, 0x2002))}})
-	add(&control.C09Params{Name: "L1/diff-names-same-id", Layer: 1, Clients: []control.C09Client{cl(q(a, tA, 0x3003)), cl(q(b, tA, 0x3003))}})
-	add(&control.C09Params{Name: "L2/udp-reuse-same-id", Layer: 2, Clients: []control.C09Client{cl(q(a, tA, 0x4004), q(b, tA, 0x4004))}})
-	add(&control.C09Params{Name: "L3/tcp-2clients", Layer: 3, Clients: []control.C09Client{cl(q(a, tA, 0x5005)), cl(q(b, tA, 0x5005))}})
+	C := func(cs ...control.C09Client) []control.C09Client { return cs }
+
+	// ---- layer 1: scripted forwarder behind the real controller --------------------------------------------
+	// identical question (0x20 mixed case on one side), different transaction IDs: coalescing, per-waiter ID
+	add(&control.C09Params{Name: "L1/same-name", Layer: 1, Clients: C(cl(q(a, tA, 0x1001)), cl(q("A.C9.Test.", tA, 0x2002)))},
+		[]B{{0, 0}, {1, 1}, {2, 1}}, []B{{0, 0}, {1, 1}, {2, 2}, {3, 2}})
+	// different names under one transaction ID
+	add(&control.C09Params{Name: "L1/diff-names-same-id", Layer: 1, Clients: C(cl(q(a, tA, 0x3003)), cl(q(b, tA, 0x3003)))},
+		[]B{{0, 0}, {1, 1}, {2, 1}}, []B{{0, 0}, {1, 1}, {2, 2}})
+	// one name, two types, one ID: the type is part of every key
+	add(&control.C09Params{Name: "L1/name-vs-type", Layer: 1, Clients: C(cl(q(a, tA, 0x3003)), cl(q(a, tAAAA, 0x3003)))},
+		[]B{{0, 0}, {1, 1}}, []B{{0, 0}, {1, 1}, {2, 2}})
+	// two queries per client, crossing: cache hits and coalescing mixed
+	add(&control.C09Params{Name: "L1/two-queries", Layer: 1, Clients: C(cl(q(a, tA, 0x0101), q(b, tA, 0x0102)), cl(q(b, tA, 0x0201), q(a, tA, 0x0202)))},
+		[]B{{0, 0}, {1, 1}}, []B{{0, 0}, {1, 1}, {2, 1}})
+	// idle eviction of the cached forwarder racing with a query
+	add(&control.C09Params{Name: "L1/evict", Layer: 1, Background: "evict", Behaviours: []string{"ok", "error", "slow"}, Clients: C(cl(q(a, tA, 0x0a0a)), cl(q(b, tA, 0x0b0b)))},
+		[]B{{0, 0}, {1, 0}, {2, 0}, {2, 1}}, []B{{0, 0}, {2, 1}, {3, 1}, {3, 2}})
+	// retirement of all forwarders (configuration reload) racing with queries
+	add(&control.C09Params{Name: "L1/retire", Layer: 1, Background: "retire", Behaviours: []string{"ok", "error"}, Clients: C(cl(q(a, tA, 0x0a0a)), cl(q(b, tA, 0x0b0b)))},
+		[]B{{0, 0}, {1, 0}, {2, 0}, {2, 1}}, []B{{0, 0}, {2, 1}, {3, 1}, {3, 2}})
+	add(&control.C09Params{Name: "L1/3-same-name", Layer: 1, Clients: C(cl(q(a, tA, 0x1001)), cl(q(a, tA, 0x2002)), cl(q(a, tA, 0x1001)))},
+		nil, []B{{0, 0}, {1, 1}, {2, 1}, {2, 2}})
+	add(&control.C09Params{Name: "L1/3-mixed", Layer: 1, Clients: C(cl(q(a, tA, 0x1001)), cl(q(a, tA, 0x2002)), cl(q(b, tA, 0x1001)))},
+		nil, []B{{0, 0}, {1, 1}, {2, 1}, {2, 2}})
+	add(&control.C09Params{Name: "L1/3-evict", Layer: 1, Background: "evict", Behaviours: []string{"ok", "error"}, Clients: C(cl(q(a, tA, 0x0a0a)), cl(q(c, tA, 0x0c0c)), cl(q(b, tA, 0x0b0b)))},
+		nil, []B{{0, 0}, {2, 0}, {2, 1}, {3, 1}})
+	add(&control.C09Params{Name: "L1/3-retire", Layer: 1, Background: "retire", Behaviours: []string{"ok", "error"}, Clients: C(cl(q(a, tA, 0x0a0a)), cl(q(c, tA, 0x0c0c)), cl(q(b, tA, 0x0b0b)))},
+		nil, []B{{0, 0}, {2, 0}, {2, 1}, {3, 1}})
+
+	// ---- layer 2: real DoUDP + udpConnPool over datagram sockets, tcp+udp upstream (fallback to real DoTCP) ----
+	// one client, two questions under one ID, the second reuses the pooled socket
+	add(&control.C09Params{Name: "L2/udp-reuse-same-id", Layer: 2, Clients: C(cl(q(a, tA, 0x4004), q(b, tA, 0x4004)))},
+		[]B{{0, 0}, {1, 1}, {0, 2}}, []B{{0, 0}, {1, 1}, {1, 2}, {2, 2}})
+	// two clients, different names, one ID, concurrently (two sockets) and then the sockets are reused
+	add(&control.C09Params{Name: "L2/udp-2clients", Layer: 2, Clients: C(cl(q(a, tA, 0x4004)), cl(q(b, tA, 0x4004), q(c, tA, 0x4004)))},
+		[]B{{0, 0}, {1, 0}, {0, 1}, {1, 1}}, []B{{0, 0}, {1, 1}, {2, 1}, {1, 2}})
+	add(&control.C09Params{Name: "L2/udp-same-name", Layer: 2, Clients: C(cl(q(a, tA, 0x4004)), cl(q(a, tA, 0x4114)))},
+		[]B{{0, 0}, {1, 0}, {0, 1}, {1, 1}}, []B{{0, 0}, {1, 1}, {2, 1}, {1, 2}})
+	add(&control.C09Params{Name: "L2/3-clients", Layer: 2, Clients: C(cl(q(a, tA, 0x4004)), cl(q(b, tA, 0x4004)), cl(q(a, tA, 0x4224), q(c, tA, 0x4004)))},
+		nil, []B{{0, 0}, {1, 0}, {0, 1}, {1, 1}})
+
+	// ---- layer 3: real DoTCP (connPool + pipelinedConn) over a stream ----------------------------------------
+	add(&control.C09Params{Name: "L3/tcp-2clients", Layer: 3, Clients: C(cl(q(a, tA, 0x5005)), cl(q(b, tA, 0x5005)))},
+		[]B{{0, 0}, {1, 0}, {0, 1}, {1, 1}}, []B{{0, 0}, {1, 1}, {2, 1}, {1, 2}})
+	// ID reuse on the pipelined connection: the second question of client 0 gets the ID of its first
+	add(&control.C09Params{Name: "L3/tcp-seq-reuse", Layer: 3, Clients: C(cl(q(a, tA, 0x5005), q(b, tA, 0x5115)), cl(q(c, tA, 0x5005)))},
+		[]B{{0, 0}, {1, 0}, {0, 1}, {1, 1}}, []B{{0, 0}, {1, 1}, {2, 1}, {1, 2}})
+	add(&control.C09Params{Name: "L3/3-clients", Layer: 3, Clients: C(cl(q(a, tA, 0x5005)), cl(q(b, tA, 0x5005)), cl(q(c, tA, 0x5005)))},
+		nil, []B{{0, 0}, {1, 0}, {0, 1}, {1, 1}})
+
 	p := &vdrive.Plan{
 		Scenarios:      scs,
-		QuickBounds:    []vsched.Bound{{0, 0}},
-		ThoroughBounds: []vsched.Bound{{0, 0}, {1, 1}},
-		BudgetQuick:    150 * time.Second,
-		BudgetThorough: 25 * time.Minute,
+		QuickBounds:    []B{{0, 0}, {1, 1}},
+		ThoroughBounds: []B{{0, 0}, {1, 1}, {2, 1}},
+		PerScenario:    per,
+		BudgetQuick:    110 * time.Second,
+		BudgetThorough: 21 * time.Minute,
 		Finish: func(r *vlib.Run) {
+			r.Rule("bound (p,d): p = switches away from the default scheduler choice (preemptions and non-default picks when the running thread blocks), d = environment deviations = scripted-upstream misbehaviours (vsched.Choose != 0) plus timers fired while a thread could still run (a stalled goroutine: context and socket deadlines expire early)")
+			r.Assume("golang.org/x/sync/singleflight (coalescing) is the module's own file, copied verbatim by checks/C09/prebuild into a virtual package and instrumented like the repo files; control/dns_control.go is taken from the working tree with exactly its singleflight import path swapped")
+			r.Assume("dnsPipelineMaxIDs lowered from 4096 to 8 by an overlay constant (pipelinedConn.closeWithErr walks the whole pending table; at most 3 requests are in flight here)")
+			r.Assume("clients enter through DnsController.HandleWithResponseWriter_ with a capturing ResponseWriter (the path of the DNS listener and DNS-over-TCP); the packet path (sendRuntimeTrackedPkt, needs real sockets) is not executed. A handler error is what the listeners turn into SERVFAIL built from the request")
+			r.Assume("an upstream reply whose question section is the client's question but whose records are garbage cannot be told from an answer by a forwarder and is not in the behaviour alphabet; foreign answers are whole messages generated for another question (other name or other type) under the request's ID")
+			r.Assume("the pre-packed cache fast path is dead code in this tree (DnsCache.deadlineNano is never set by the production insert path, see C08), so cache hits are served through fillIntoWithTTLInPlace on the client's own message")
+			r.Assume("layers 2/3: simulated sockets (simnet), direct dialer profile (no proxy): DoH/DoQ/DoTLS transports are not executed")
 		},
 	}
 	vdrive.Main("C09", p)
